@@ -122,3 +122,37 @@ Proof.
       destruct (resolve (e1 ++ (s, a, names) :: e2) fs n false (S n) p1) as [rm n1].
       rewrite IHp2 by exact H2. reflexivity.
 Qed.
+
+(* a scope without names is invisible (class bodies) *)
+Lemma lookup_drop_nil x : forall e1 s a e2, lookup (e1 ++ (s, a, []) :: e2) x = lookup (e1 ++ e2) x.
+Proof.
+  induction e1 as [|[[s0 a0] n0] t IH]; intros s a e2; cbn [app lookup]; [reflexivity|].
+  destruct (mem x n0); [reflexivity|]. apply IH.
+Qed.
+
+Ltac dn1 IH e1 := let E := fresh in
+  pose proof (fun en s a e2 fs cur ca m => IH (en :: e1) s a e2 fs cur ca m) as E; cbn [app] in E; rewrite E; clear E.
+Ltac dn2 IH e1 := let E := fresh in
+  pose proof (fun en en' s a e2 fs cur ca m => IH (en :: en' :: e1) s a e2 fs cur ca m) as E; cbn [app] in E; rewrite E; clear E.
+
+Lemma resolve_drop_nil p : forall e1 s a e2 fs cur ca n,
+  resolve (e1 ++ (s, a, []) :: e2) fs cur ca n p = resolve (e1 ++ e2) fs cur ca n p.
+Proof.
+  induction p; intros e1 s a e2 fs cur ca n; cbn [resolve].
+  - reflexivity.
+  - rewrite IHp, lookup_drop_nil. reflexivity.
+  - rewrite IHp, lookup_drop_nil. reflexivity.
+  - rewrite IHp. reflexivity.
+  - dn1 IHp1 e1. destruct (resolve _ _ _ _ _ p1). rewrite IHp2. reflexivity.
+  - destruct nm as [f|].
+    + dn2 IHp1 e1. destruct (resolve _ _ _ _ _ p1). dn2 IHp2 e1. destruct (resolve _ _ _ _ _ p2). rewrite IHp3. reflexivity.
+    + dn1 IHp1 e1. destruct (resolve _ _ _ _ _ p1). dn1 IHp2 e1. destruct (resolve _ _ _ _ _ p2). rewrite IHp3. reflexivity.
+  - dn1 IHp1 e1. destruct (resolve _ _ _ _ _ p1). dn1 IHp2 e1. destruct (resolve _ _ _ _ _ p2). rewrite IHp3. reflexivity.
+  - dn1 IHp1 e1. destruct (resolve _ _ _ _ _ p1). rewrite IHp2. reflexivity.
+  - rewrite IHp1. destruct (resolve _ _ _ _ _ p1). rewrite IHp2. reflexivity.
+  - dn1 IHp1 e1. destruct (resolve _ _ _ _ _ p1). dn2 IHp2 e1. destruct (resolve _ _ _ _ _ p2). rewrite IHp3. reflexivity.
+  - dn1 IHp1 e1. destruct (resolve _ _ _ _ _ p1). dn1 IHp2 e1. destruct (resolve _ _ _ _ _ p2). rewrite IHp3. reflexivity.
+  - destruct nm as [c|].
+    + dn1 IHp1 e1. destruct (resolve _ _ _ _ _ p1). rewrite IHp2. reflexivity.
+    + rewrite IHp1. destruct (resolve _ _ _ _ _ p1). rewrite IHp2. reflexivity.
+Qed.
